@@ -1434,7 +1434,7 @@ func TestVerifC17(t *testing.T) {
 	rnd := vfNewRand(out.Seed)
 	// generated patterns, each with a file named like its own text
 	rgl := rnd.Fork(5)
-	for i, n := 0, out.Scale(70, 2500); i < n; i++ {
+	for i, n := 0, out.Scale(70, 1500); i < n; i++ {
 		pats, extra, block, allow, ops, cls := c17GenGlobHistory(rgl, tr)
 		c17HistoryX(t, out, tr, dataDir, extra, pats, block, allow, ops, cls)
 	}
